@@ -14,6 +14,7 @@
   C01-parameter-reaches-no-operation and C01-1x1-array-parameter are exactly the excluded cases).
 -/
 import Blackbird.Props.C09
+import Blackbird.Lemmas.UnparseTdm
 
 namespace Blackbird
 
@@ -92,6 +93,19 @@ theorem C01_text_parses (p : Program K) (sc : Script) (hp : p.OK) (hne : ∀ op 
     (h : scriptOf p = .ok sc) (ml : MetaLay) (lay : List (Nat × List Nat)) (final : Nat) :
     parseScript (sc.toks ml lay final) = some sc :=
   parse_scriptOf p sc hp hne h ml lay final
+
+/-- **Programs of type tdm** (variable block, p-arrays by name): reloading the serialised script of
+a covered tdm program that reports no parameters and the modes of its operations returns exactly
+that program — all eight fields, variables with their data included — so every later generation is
+the same program again. -/
+theorem C01_tdm_reload_exact (o : SetOrder Int) (fs : FS) (cwd : String) (T0 : Tables K) (p : Program K) (sc : Script)
+    (hp : TdmProgramOK p) (hpar : p.params = []) (hmodes : p.modes = p.ops.flatMap (·.modes))
+    (h : scriptOfTdm p = .ok sc) : (loadStep o fs cwd T0 sc).1 = .ok p := by
+  rw [(load_scriptOfTdm o fs cwd T0 p sc hp h).1]
+  cases p
+  simp only at hpar hmodes
+  subst hpar hmodes
+  rfl
 
 /-- non-vacuity: the concrete program of `Props/C09.lean` after three generations -/
 example :
